@@ -173,7 +173,13 @@ def check(rep, prop, tier, seed):
                "O1722.init_endian", "O1722.vss_endian", "O1722.vss_strings_endian", "O1722.beCpu16_load", "O1722.beCpu32_load",
                "O1722.beCpu64_load", "O1722.store_beCpu16", "O1722.store_beCpu32", "O1722.store_beCpu64"]
     atoms_expr = "[" + ", ".join("(\"%s\", [(\"rows\", checkRows Spec.%s Gen.%s)])" % (f["name"], n, n) for f, n in names) + "]"
-    res = pipeline.proof_stage(rep, prop, ["O1722.Gen.Data", "O1722.Props.Endian"], obligations, general, atoms_expr)
+    # the model's only host-dependent ingredient is the helper set: regenerate it and require that the
+    # host byte order enters the sources nowhere else
+    from props import byteorder as BO
+    BO.regenerate()
+    obligations += [("helpers_little", "Gen.helpers_little = modelHelpers .little", "by decide"),
+                    ("helpers_big", "Gen.helpers_big = modelHelpers .big", "by decide")] + BO.ENDIAN_SURFACE
+    res = pipeline.proof_stage(rep, prop, ["O1722.Gen.Data", "O1722.Gen.Byteorder", "O1722.Props.Endian", "O1722.Props.Byteorder"], obligations, general, atoms_expr)
     # the Byteorder.h big-endian branch must be the Model's (same obligations as C13)
     import byteorder as bo_tr
     bo = bo_tr.translate(common.REPO)
